@@ -1,26 +1,31 @@
 import Driver.Proto
+import Driver.Server
 open Drv
 
 /-- one input line `> op …` is answered by one output line; all other lines are ignored -/
-def stepLine (line : String) : Option String :=
+def stepLine (d : SrvDrv) (line : String) : SrvDrv × Option String :=
   let toks := (line.splitOn " ").filter (· ≠ "")
   match toks with
   | ">" :: rest =>
     match protoStep rest with
-    | some r => some r
-    | none => some "bad-op"
-  | _ => none
+    | some r => (d, some r)
+    | none =>
+      match srvStep d rest with
+      | some (d', r) => (d', some r)
+      | none => (d, some "bad-op")
+  | _ => (d, none)
 
-partial def loop (hin hout : IO.FS.Stream) : IO Unit := do
+partial def loop (hin hout : IO.FS.Stream) (d : SrvDrv) : IO Unit := do
   let line ← hin.getLine
   if line.isEmpty then return ()
-  match stepLine (String.ofList (line.toList.filter (fun c => c != '\n' && c != '\r'))) with
+  let (d', r) := stepLine d (String.ofList (line.toList.filter (fun c => c != '\n' && c != '\r')))
+  match r with
   | some r => hout.putStrLn r
   | none => pure ()
-  loop hin hout
+  loop hin hout d'
 
 def main : IO Unit := do
   let hin ← IO.getStdin
   let hout ← IO.getStdout
-  loop hin hout
+  loop hin hout SrvDrv.init
   hout.flush
